@@ -131,7 +131,7 @@ def obligations(tier):
     combos = [(a, b) for a in (True, False) for b in (True, False)]
     for a, b in combos:
         obs.append(Ob("imports+codec/sgio=%s/iscsi=%s" % (a, b), MOD, "h_imports", {"have_sgio": a, "have_iscsi": b}))
-    lens = (0, 4, 5, 6, 8, 9, 12) if tier == "quick" else range(0, 17)
+    lens = (0, 4, 5, 6, 8, 9, 12) if tier == "quick" else range(0, 25)
     for a, b in combos:
         for entry in ("init_device", "SCSIDevice", "ISCSIDevice"):
             for n in lens:
@@ -154,7 +154,7 @@ INFO = {
                    "tests fork in the solver and z3 searches for a string on which behaviour and dispatch table disagree.",
     "functions": ["pyscsi.utils.init_device", "SCSIDevice.__init__/open", "ISCSIDevice.__init__/open",
                   "try: import sgio / import iscsi blocks", "every module under pyscsi (import)"],
-    "bounds": {"device string": "7-bit characters, length 0..16 thorough / 7 lengths quick", "configurations": "4 x 3 entry "
+    "bounds": {"device string": "7-bit characters, length 0..24 thorough / 7 lengths quick", "configurations": "4 x 3 entry "
                "points x read_write x explicit/default initiator"},
     "outside": ["non-ASCII device strings", "real bindings (stubs stand for cython-sgio / cython-iscsi)"],
     "assumptions": ["a blocked import behaves like an uninstalled binding (sys.modules[name] = None)"],
